@@ -32,6 +32,8 @@ def gen_cases(out, explore):
             tr = S.gen_trace(rnd, job, name, nid, n, dangling=rnd.random() < 0.1,
                              names_inconsistent=rnd.random() < 0.15)
             nid += n
+            if rnd.random() < 0.3 and tr[0]["par"] is None:
+                tr[0]["par"] = 0        # the root's missing parent delivered as "" (OTLP JSON) instead of null
             evs.append(tr)
         # interleaved ingestion order
         flat = []
@@ -67,7 +69,8 @@ def run_impl(case, path):
         for name, jobs in h.stream_data(fm, fnames):
             js = []
             for job in jobs:
-                js.append([(S.un(e.event_id), S.un(e.job_id), S.un_name(e.job_name), S.un(e.parent_event_id) if e.parent_event_id else None,
+                js.append([(S.un(e.event_id), S.un(e.job_id), S.un_name(e.job_name),
+                            None if e.parent_event_id is None else (0 if e.parent_event_id == "" else S.un(e.parent_event_id)),
                             S.un(e.event_type), e.start_timestamp, e.end_timestamp, S.un(e.application_name),
                             sorted(S.un(c) for c in e.child_event_ids)) for e in job])
             out.append((S.un_name(name), js))
@@ -140,6 +143,8 @@ def oracle(case, nodes, assoc, streamed):
                 return "one group mixes several trace ids"
             seen_jobs.append(next(iter(jids)))
             for ev in job:
+                if ev[3] == 0:
+                    return f"span {ev[0]} is streamed with the empty string as its parent id (neither the root marker None nor a span id)"
                 if ev[2] != name:
                     return f"span {ev[0]} attributed to workflow {name} but stored under {ev[2]}"
                 e = byid.get(ev[0])
